@@ -165,6 +165,7 @@ def all_modes():
 
 ENTRIES = ['run', 'call', 'evaluate', 'import', 'run-code']
 ENVS = ['plain', 'outer-trace', 'outer-patchers', 'before-and-after-code', 'time-module-blocked', 'time-module-replaced', 'html-formatter', 'text-formatter', 'in-a-later-section',
+        'gradescope-formatter', 'vpl-formatter', 'terminal-formatter',
         'failpoint-traceback', 'failpoint-feedback']
 
 
@@ -580,6 +581,15 @@ def execute_case(ctx, which, case, state=None):
         # the environment's choice of formatter: the failure's message and traceback are rendered through it
         from pedal.core import formatting
         report.format = formatting.HtmlFormatter() if envname == 'html-formatter' else formatting.TextFormatter()
+    elif envname == 'gradescope-formatter':
+        from pedal.environments.gradescope import GradeScopeFormatter
+        report.set_formatter(GradeScopeFormatter(report))
+    elif envname == 'vpl-formatter':
+        from pedal.environments.vpl import VPLFormatter
+        report.set_formatter(VPLFormatter(report))
+    elif envname == 'terminal-formatter':
+        from pedal.environments.terminal import TerminalFormatter
+        report.set_formatter(TerminalFormatter(report))
     with Env(envname):
         return _measured(ctx, which, case, sandbox, report, files, inputs, n_rt_before)
 
@@ -828,7 +838,7 @@ def case_matrix(ctx, which):
                     if m['kind'] == 'timeout' and (not threaded or which != 'C05'):
                         continue        # only a threaded execution has a time limit (and only C05 looks at what is left behind)
                     for pos in ('first', 'after-failure', 'after-ok', 'after-clear_context', 'the-same-execution-before'):
-                        for env in (ENVS if which == "C05" else ENVS[:9]):
+                        for env in (ENVS if which == "C05" else ENVS[:12]):
                             if env.startswith('failpoint') and m['kind'] in ('ok',):
                                 continue
                             c = dict(m)
